@@ -244,7 +244,7 @@ impl Prop for C14 {
             0u8..3,
             0u8..3,
             proptest::collection::vec((coord_strategy(), coord_strategy()), 40..200),
-            prop_oneof![1 => Just((1u8, 0u8)), 2 => (0u8..3, 0u8..3)],
+            prop_oneof![1 => Just((1u8, 0u8)), 3 => (0u8..3, 0u8..9)],
         )
             .prop_map(|(model, (slo, shi, sb), (glo, ghi, gb), su, gu, points, declared)| C14Case::Model {
                 model,
@@ -570,7 +570,16 @@ fn check_model(
     };
     // declared units of the interpolated model (default in old replay files: mph, native rate)
     let m_su = if declared == (0, 0) { SpeedUnit::MilesPerHour } else { SPEED_UNITS[declared.0 as usize % 3] };
-    let m_gu = GradeUnit::Decimal;
+    // declared grade unit: second component / 3 (0 decimal, 1 percent, 2 millis); the grid
+    // bounds are written in that unit
+    let m_gu = GRADE_UNITS[(declared.1 as usize / 3) % 3];
+    let gscale = match m_gu {
+        GradeUnit::Decimal => 1.0,
+        GradeUnit::Percent => 100.0,
+        GradeUnit::Millis => 1000.0,
+    };
+    let grade = (grade.0 * gscale, grade.1 * gscale, grade.2);
+    o.label(format!("declared-grade-unit-{}", m_gu));
     let native = model_rate_unit(model);
     let m_ru = if native == EnergyRateUnit::KilowattHoursPerMile {
         [EnergyRateUnit::KilowattHoursPerMile, EnergyRateUnit::KilowattHoursPerKilometer, EnergyRateUnit::KilowattHoursPerMeter][declared.1 as usize % 3]
@@ -598,9 +607,55 @@ fn check_model(
     };
     let xs = linspace(speed.0, speed.1, speed.2);
     let ys = linspace(grade.0, grade.1, grade.2);
+    // the same model as the configuration path obtains it (load_prediction_model with an
+    // `interpolate` model type): it must be the same function
+    let via_loader = routee_compass_powertrain::routee::prediction::load_prediction_model(
+        "m".to_string(),
+        &model_path(model),
+        ModelType::Interpolate {
+            underlying_model_type: Box::new(ModelType::Smartcore),
+            speed_lower_bound: Speed::new(speed.0),
+            speed_upper_bound: Speed::new(speed.1),
+            speed_bins: speed.2,
+            grade_lower_bound: Grade::new(grade.0),
+            grade_upper_bound: Grade::new(grade.1),
+            grade_bins: grade.2,
+        },
+        m_su,
+        m_gu,
+        m_ru,
+        None,
+        None,
+        None,
+    );
+    match via_loader {
+        Err(e) => {
+            o.fail("C14/model/loader-rejects-valid-interpolate-section", json!({"error": e.to_string()}));
+            return;
+        }
+        Ok(rec) => {
+            for i in (0..xs.len()).step_by(1 + xs.len() / 7) {
+                for j in (0..ys.len()).step_by(1 + ys.len() / 7) {
+                    // node and a point between nodes
+                    for (s, g) in [(xs[i], ys[j]), (xs[i] + (xs[xs.len() - 1] - xs[0]) * 0.013, ys[j] + (ys[ys.len() - 1] - ys[0]) * 0.017)] {
+                        let a = interp.predict((Speed::new(s), m_su), (Grade::new(g), m_gu)).map(|r| r.0.as_f64()).map_err(|e| e.to_string());
+                        let b = rec.prediction_model.predict((Speed::new(s), m_su), (Grade::new(g), m_gu)).map(|r| r.0.as_f64()).map_err(|e| e.to_string());
+                        if a != b {
+                            o.fail(
+                                "C14/model/loader-builds-a-different-model",
+                                json!({"speed": s, "grade": g, "declared_units": [m_su.to_string(), m_gu.to_string(), m_ru.to_string()], "direct": a, "through_load_prediction_model": b,
+                                       "speed_grid": [speed.0, speed.1, speed.2], "grade_grid": [grade.0, grade.1, grade.2]}),
+                            );
+                            return;
+                        }
+                    }
+                }
+            }
+        }
+    }
     let node = |i: usize, j: usize| -> f64 {
         // the forest itself, in the units `und` was loaded with: numbers in, numbers out
-        und.predict((Speed::new(xs[i]), SpeedUnit::MilesPerHour), (Grade::new(ys[j]), m_gu))
+        und.predict((Speed::new(xs[i]), SpeedUnit::MilesPerHour), (Grade::new(ys[j]), GradeUnit::Decimal))
             .map(|(r, _)| r.as_f64())
             .unwrap_or(f64::NAN)
     };
